@@ -814,6 +814,16 @@ func (a *actor) next(op *Op) *CallRec {
 			return
 		}
 		c.Err = st.s.Err()
+		if c.Err == nil && st.ended == "" {
+			// no new event: what Decode hands out now is at most the event delivered last, never one the stream
+			// skipped as out of scope or has not delivered
+			var ev bson.D
+			if err := st.s.Decode(&ev); err == nil {
+				if n := len(st.events); n == 0 || !model.Same(ev, st.events[n-1]) {
+					e.violate(violation("C09", "decode-without-delivery", "", fmt.Sprintf("after %s returned false, Decode hands out %s, which the stream has not delivered", op.K, docStr(ev))))
+				}
+			}
+		}
 		if c.Err != nil && st.ended == "" {
 			if errors.Is(c.Err, lungo.ErrLostOplogPosition) {
 				st.ended = "lost"
